@@ -52,6 +52,24 @@ def c04_cases(tier, seed):
         if prod(a) * prod(b) > 90000 or (bdims(a, b) and prod(bdims(a, b)) > 600):
             continue
         big.append(ew_case(a, b, ops=("add", "mul", "div")))
+    # values and coefficients at which a shortcut is tempting (0, 1, -1; operands that are all zeros / all ones),
+    # under broadcasting in both directions: the result still has the broadcast dimensions
+    sh3 = shapes(3, 3)
+    bp = [(a, b) for a in sh3 for b in sh3 if a != b and bdims(a, b)]
+    for a, b in (bp if tier == "thorough" else rnd.sample(bp, 150)):
+        na, nb = prod(a), prod(b)
+        steps = [RESET, leaf(1, a, [k + 1 for k in range(na)]), leaf(2, b, [100 + k for k in range(nb)]),
+                 leaf(3, b, [0] * nb), leaf(4, b, [1] * nb), leaf(5, a, [0] * na), leaf(6, a, [1] * na)]
+        h = 10
+        for al in (0, 1, -1):
+            steps.append(op("axpy", [1, 2], h, alpha=sc(al))); h += 1
+            steps.append(op("axpy", [2, 1], h, alpha=sc(al))); h += 1
+        for x, y in ((1, 3), (1, 4), (3, 1), (4, 1), (5, 2), (6, 2), (2, 5), (2, 6), (3, 5), (4, 6)):
+            for o in ("add", "mul", "sub"):
+                steps.append(op(o, [x, y], h)); h += 1
+        steps.append(op("div", [1, 4], h)); h += 1
+        steps.append(op("div", [5, 4], h)); h += 1
+        big.append(steps)
     # a dimension around a block size, against equal / unit / lower-rank partners
     for B in (BLOCKY if tier == "thorough" else rnd.sample(BLOCKY, 4) + [33]):
         for a, b in (([B], [B]), ([B], [1]), ([2, B], [B]), ([2, B], [2, 1]), ([B, 2], [B, 1]), ([B, 2], [2]), ([1, B], [3, 1]),
